@@ -1,7 +1,7 @@
 (* Props/C03.v — C03: model queries agree with the feature tree they describe.
    Only statements, each closed by [exact] of a lemma proved in Proofs/, with Print Assumptions. *)
 From Coq Require Import List Bool String ZArith Permutation.
-From FM Require Import Model.FM Model.Queries Proofs.FMFacts Proofs.QueriesFacts.
+From FM Require Import Model.FM Model.Queries Model.Heap Proofs.FMFacts Proofs.QueriesFacts Proofs.HeapFacts.
 Import ListNotations.
 Local Open Scope list_scope.
 
@@ -102,6 +102,35 @@ Theorem C03_type_listings : forall m,
   get_string_features m = filter (fun f => ftype_eqb (f_type (info f)) TString) (get_features m).
 Proof. exact type_listing_spec. Qed.
 Print Assumptions C03_type_listings.
+
+(* ---- "built through the public constructors": feature OBJECTS (Model/Heap.v) and the calls that link them.
+   Whatever sequence of Feature(...), add_relation, del relations[k], Relation.add_child and parent assignments a
+   client makes, as long as each call respects its guard (a feature is put into a relation only while no relation
+   holds it; the relation names its receiver as parent) every reachable state is LINKED: a relation's parent is the
+   feature that holds it, and every child's parent pointer is that feature — also after a subtree was moved. *)
+Theorem C03_construction_linked : forall ops, guards [] ops = true -> linked (run [] ops).
+Proof. exact construction_linked. Qed.
+Print Assumptions C03_construction_linked.
+
+(* on linked objects the queries that FOLLOW the parent pointer (get_parent, is_root, Feature.is_mandatory,
+   Feature.is_optional — the latter two find the feature among its parent's relations BY NAME) say what the relation
+   that holds the feature says, provided sibling names are distinct *)
+Theorem C03_parent_pointer : forall h f x r c, linked h -> nth_error h f = Some x -> In r (hf_rels x) ->
+  In c (hr_children r) -> h_parent h c = Some f /\ h_is_root h c = false.
+Proof. exact h_parent_spec. Qed.
+Print Assumptions C03_parent_pointer.
+
+Theorem C03_pointer_predicates : forall h f x r c, linked h -> nth_error h f = Some x -> In r (hf_rels x) ->
+  In c (hr_children r) -> NoDup (map (h_name h) (h_children h f)) ->
+  h_is_mandatory h c = hrel_is_mandatory r /\ h_is_optional h c = hrel_is_optional r.
+Proof. intros. split; [eapply h_is_mandatory_spec|eapply h_is_optional_spec]; eassumption. Qed.
+Print Assumptions C03_pointer_predicates.
+
+(* non-vacuity (a guarded run that MOVES a subtree) and the need for the guard (a feature attached twice) *)
+Example C03_construction_nonvacuous :
+  guards [] ex_move = true /\ h_parent (run [] ex_move) 1 = Some 2 /\ h_is_mandatory (run [] ex_move) 1 = true
+  /\ guards [] ex_shared = false /\ h_children (run [] ex_shared) 0 = [1; 2]%nat /\ h_parent (run [] ex_shared) 1 = Some 2.
+Proof. vm_compute. repeat split; reflexivity. Qed.
 
 (* non-vacuity: a concrete model with mixed relation kinds meets the hypotheses *)
 Definition ex_model : fm :=
